@@ -72,6 +72,42 @@ theorem exit_iff_any_schedule (r : Run) (hv : r.v = patched)
 example : printedOf (sampleRun patched .thread) (fromFiles (sampleRun patched .thread)).reverse = printed (sampleRun patched .thread) ∨
     (printedOf (sampleRun patched .thread) (fromFiles (sampleRun patched .thread)).reverse).map (·.key) = [3, 2, 4, 5] := by decide
 
+/- ---- runs whose only findings come from the whole-program stages ---------------------------------------------------- -/
+
+/-- `--enable=unusedFunction --error-exitcode=7 clean.c static.c`: the only finding is a staticFunction raised by the in-memory
+    stage (`CheckUnusedFunctions::check` returns false for it, so `errors` is false and the stage adds nothing to the executor's
+    result), the second stage raises it again and the duplicate filter drops it — the status is still 7, because the logger's code
+    set in the first stage is not reset before `returnValue |= analyseWholeProgram(buildDir, …)` reads it -/
+def wpOnlyRun (b : Bool) (nofail : Bool) : Run :=
+  { v := patched, o := sampleOpts 7 .single, files := [[], []], wp1 := [sampleFinding 1 false nofail], wp1Errors := b,
+    wp2 := [sampleFinding 1 false nofail], unmatchedGate := false, unmatched := [], lostPipes := 0 }
+
+example : exitStatus (wpOnlyRun false false) = 7 ∧ (printed (wpOnlyRun false false)).map (·.key) = [1] ∧
+    execResult (wpOnlyRun false false) = 0 ∧ rv1 (wpOnlyRun false false) = 1 ∧
+    exitStatus (wpOnlyRun false true) = 0 ∧ (printed (wpOnlyRun false true)).map (·.key) = [1] := by decide
+
+/-- the `errors` flag of the in-memory whole-program stage (`return errors && mLogger->exitcode() > 0`) never decides the exit
+    status: whenever it could add to the executor's result, the sticky logger code is set and reaches `returnValue` through the second
+    stage (`returnValue |= analyseWholeProgram(buildDir, …)`, which returns the same logger's code and does not reset it) -/
+theorem stage_one_errors_flag_irrelevant (r : Run) (b : Bool) (hs : r.o.safety = false) :
+    exitStatus { r with wp1Errors := b } = exitStatus r := by
+  apply status_eq_of_rv1 (r' := { r with wp1Errors := b }) (r := r) rfl rfl rfl rfl
+  by_cases hm : (main1 r).exit = true
+  · right
+    have h2 : (main2 r).exit = true := main12_mono r hs hm
+    exact ⟨or_ne_zero_right (by show (if (main2 r).exit = true then 1 else 0) ≠ 0; simp [h2]),
+           or_ne_zero_right (by simp [h2])⟩
+  · left
+    have hm' : (main1 r).exit = false := by simpa using hm
+    show execResult { r with wp1Errors := b } ||| _ = execResult r ||| _
+    have : execResult { r with wp1Errors := b } = execResult r := by
+      unfold execResult
+      show (sumRets r + (if (r.o.executor == Executor.single && b && (main1 r).exit) = true then 1 else 0) + _) % two32 = _
+      simp [hm']
+    rw [this]
+    rfl
+
+
 /-- outside `--safety` the status is the error exit code or 0, and it is 0 when nothing that counts was printed -/
 theorem exit_else_zero (r : Run) (hsafe : r.o.safety = false) :
     (exitStatus r = waitStatus r.o.errorExitCode ∨ exitStatus r = 0) ∧
